@@ -410,4 +410,55 @@ def intoDecoder (c : Cfg) (e : Encoder) : M Decoder :=
   | .error f => .error f
   | .ok ws => Decoder.fromCompressed c ws
 
+/-! ## Batch forms (default methods of `Encode` / `Decode` in src/stream/mod.rs)
+
+`encode_symbols`, `try_encode_symbols` (an `Err` item of the iterator is `none`) and
+`encode_iid_symbols` are the loop `for item in items { self.encode_symbol(..)? }`; the decoding
+iterators `decode_symbols`, `try_decode_symbols`, `decode_iid_symbols` call `decode_symbol` once
+per `next()`.  After a failure part-way the coder is what the successful prefix left. -/
+
+inductive BatchErr where
+  | model
+  | coding (e : EncErr)
+  deriving Repr, DecidableEq
+
+/-- `encode_symbols` / `try_encode_symbols`: the encoder afterwards and the result -/
+def encodeSymbols {Sym : Type} (c : Cfg) : Encoder → List (Option (Sym × Model Sym)) →
+    Encoder × Except BatchErr Unit
+  | e, [] => (e, .ok ())
+  | e, none :: _ => (e, .error .model)
+  | e, some (s, m) :: rest =>
+    match encode c m s e with
+    | .ok e' => encodeSymbols c e' rest
+    | .error err => (e, .error (.coding err))
+
+/-- `encode_iid_symbols(symbols, model)` = `encode_symbols(symbols.map(|s| (s, model)))` -/
+def encodeIidSymbols {Sym : Type} (c : Cfg) (e : Encoder) (m : Model Sym) (syms : List Sym) :
+    Encoder × Except BatchErr Unit :=
+  encodeSymbols c e (syms.map (fun s => some (s, m)))
+
+inductive DecBatchErr where
+  | model
+  | coding (e : DecErr)
+  deriving Repr, DecidableEq
+
+/-- `decode_symbols(models).collect()` / `try_decode_symbols` up to the first `Err`: the decoder
+    afterwards, the symbols obtained, the result -/
+def decodeSymbols {Sym : Type} (c : Cfg) : Decoder → List (Option (Model Sym)) → List Sym →
+    Decoder × List Sym × Except DecBatchErr Unit
+  | d, [], acc => (d, acc.reverse, .ok ())
+  | d, none :: _, acc => (d, acc.reverse, .error .model)
+  | d, some m :: rest, acc =>
+    match decode c m d with
+    | .ok (s, d') => decodeSymbols c d' rest (s :: acc)
+    | .error err => (d, acc.reverse, .error (.coding err))
+
+/-- `decode_iid_symbols(n, model)` -/
+def decodeIidSymbols {Sym : Type} (c : Cfg) (d : Decoder) (m : Model Sym) (n : Nat) :
+    Decoder × List Sym × Except DecBatchErr Unit :=
+  decodeSymbols c d (List.replicate n (some m)) []
+
+/-- `Encode::maybe_full` / `Code::encoder_maybe_full` for a `Vec` backend -/
+def maybeFull (_e : Encoder) : Bool := false
+
 end CV.Range
